@@ -109,6 +109,13 @@ PutNeverReplaces(cfg, s, e, s2) ==
         /\ e.api \in {"set", "set_tf", "gou"}
         /\ (e.api = "gou" => e.p \in DOMAIN s.cur /\ Has(s.cur[e.p], "judge") /\ s.cur[e.p].judge = "replace")
 
+\* C13: get_or_update whose judge answered Replace for a hit (in the write cache or in a read-only level) stores and returns the newly
+\* populated value -- whatever other writers do meanwhile (it publishes with set's rename, never with put's insert-if-absent)
+ReplaceOwn(s, e) ==
+    e.e = "obs" /\ e.api = "gou" /\ e.p \in DOMAIN s.cur /\ Has(s.cur[e.p], "judge") /\ s.cur[e.p].judge = "replace" /\ Has(s.cur[e.p], "val")
+        /\ e.p \in DOMAIN s.lastret /\ s.lastret[e.p].ok /\ Has(s.lastret[e.p], "judge") /\ Has(e, "handle") =>      \* ("judge": the judge was consulted, i.e. there was a hit)
+        Has(e.handle.c, "val") /\ e.handle.c.val = s.cur[e.p].val
+
 \* ---- C05: no error, no panic (runs of this property inject nothing and use valid names)
 NoErr(e) == e.e = "ret" /\ ~(Has(e, "world") /\ e.world) => e.ok /\ ~e.panic
 
@@ -209,6 +216,11 @@ MovedSeqIn(pre, post, d) == SortSeq(SetToSeq(MovedIn(pre, post, d)), LAMBDA a, b
 PruneOK(pre, post, d, cap) ==
     LET names == EntryNames(pre, d) IN
     PruneChecks(pre, post, d, cap, names, names \ EntryNames(post, d), MovedIn(pre, post, d), {MovedSeqIn(pre, post, d)})
+\* C09: an entry that maintenance spared re-enters the queue unmarked (whatever the timestamp granularity: atime strictly before mtime)
+\* (`restamped`: the entries whose modification time the maintenance set -- known from its calls, not from a change of the stored value,
+\* which a coarse clock can hide)
+ReprieveUnmarks(pre, post, d, restamped) ==
+    \A n \in (MovedIn(pre, post, d) \cup restamped) \cap EntryNames(post, d) : TLt(InoAt(post, d, n).at, InoAt(post, d, n).mt)
 \* The same when an outside party removed entry v of d while the maintenance ran ("things do disappear from caches"): the outcome is the
 \* planner's on the directory as it was listed -- without v (not listed yet), or with v evicted, or with v left alone (and removed
 \* afterwards), or with v reprieved but gone before its re-stamp (all OTHER reprieved entries still move to the back).
@@ -265,10 +277,14 @@ YoungTempKept(cfg, s, e, s2) ==
         IsKismetTemp(cfg, d) /\ i \notin Get(s.created, e.p, {}) /\ i \in DOMAIN s.fs.inos =>
             AgeAtLeast(e.now, s.fs.inos[i].mt, MaxTempAge)
 StaleGone(cfg, s, e) ==
-    e.e = "ret" /\ e.ok /\ e.p \in DOMAIN s.tlisted =>
+    /\ e.e = "ret" /\ e.ok /\ e.p \in DOMAIN s.tlisted =>
         \A d \in s.tlisted[e.p] : d \in DOMAIN s.fs.ents =>
             \A n \in DOMAIN s.fs.ents[d] : LET i == s.fs.ents[d][n] IN
                 i # "DIR" /\ i \in DOMAIN s.fs.inos => ~AgeAtLeast(e.now, s.fs.inos[i].mt, MaxTempAge + 2)
+    \* every maintenance of a cache directory (its entries were listed by the library's own trigger-driven pass) also sweeps that
+    \* directory's temporary files, whatever the pass found to evict
+    /\ e.e = "ret" /\ e.ok /\ e.api # "prune" /\ e.p \in DOMAIN s.plisted =>
+        \A d \in s.plisted[e.p] : (d \o "/.kismet_temp") \in Get(s.tattempt, e.p, {})       \* (it at least tried to open it for listing)
 
 \* ---- C18: single I/O failures
 FaultedOp(s, e) == e.p \in DOMAIN s.faulted /\ s.faulted[e.p] = e.opi
